@@ -342,6 +342,57 @@ func concurrent(r *ev.Run) {
 	r.Add("schedule_points", steps)
 }
 
+// heldResults: a returned address belongs to the caller. Results are kept while 300 further
+// calls are made (and fed back as bases at every distance up to 130): they keep their value.
+func heldResults(r *ev.Run) {
+	for _, p := range []int{1, 56, 64, 72, 128} {
+		size := new(big.Int).Lsh(one, uint(128-p))
+		base := maskTo(patterns()[2], p)
+		type held struct {
+			ip   net.IP
+			want *big.Int
+			n    uint64
+		}
+		var hs []held
+		for n := uint64(1); n <= 300; n++ {
+			want := new(big.Int).Add(base, new(big.Int).Mul(new(big.Int).SetUint64(n), size))
+			if want.Cmp(two128) >= 0 {
+				break
+			}
+			ip, err := allocators.AddPrefixes(toIP(base), n, uint64(p))
+			if err != nil {
+				break
+			}
+			hs = append(hs, held{ip, want, n})
+			// every result handed out so far still reads what it read when it was returned
+			for _, h := range hs {
+				if fromIP(h.ip).Cmp(h.want) != 0 {
+					r.Violate("C20/held-result-changed", fmt.Sprintf("the address returned by AddPrefixes(%s,%d,%d) read %s when returned and reads %s after %d further calls", toIP(base), h.n, p, toIP(h.want), h.ip, n-h.n), Case{Fn: "held", Base: hex.EncodeToString(toIP(base)), N: fmt.Sprint(h.n), P: p})
+					return
+				}
+			}
+			// an earlier result used as the base of the next call
+			if k := len(hs) - 1 - int(n%131); k >= 0 {
+				b := hs[k]
+				got, err := allocators.AddPrefixes(b.ip, 3, uint64(p))
+				w := new(big.Int).Add(b.want, new(big.Int).Mul(big.NewInt(3), size))
+				if w.Cmp(two128) < 0 && (err != nil || fromIP(got).Cmp(w) != 0) {
+					r.Violate("C20/held-result-changed", fmt.Sprintf("AddPrefixes(earlier result %s,3,%d) = %v,%v want %s", toIP(b.want), p, got, err, toIP(w)), Case{Fn: "held", Base: hex.EncodeToString(toIP(b.want)), N: "3", P: p})
+					return
+				}
+				if off, err := allocators.Offset(got, b.ip, p); w.Cmp(two128) < 0 && (err != nil || off != 3) {
+					r.Violate("C20/held-result-changed", fmt.Sprintf("Offset(AddPrefixes(earlier result %s,3,%d), that result) = %d,%v want 3", toIP(b.want), p, off, err), Case{Fn: "held", Base: hex.EncodeToString(toIP(b.want)), N: "3", P: p})
+					return
+				}
+				if w.Cmp(two128) < 0 {
+					hs = append(hs, held{got, w, 3})
+				}
+			}
+		}
+		r.Eval("held-results/" + pclass(p))
+	}
+}
+
 func patterns() []*big.Int {
 	h := func(s string) *big.Int { v, _ := new(big.Int).SetString(s, 16); return v }
 	return []*big.Int{
@@ -403,7 +454,7 @@ func run(r *ev.Run) {
 		dist = thoroughDistances
 		r.Rule("thorough: base patterns extended by every single-bit, 2^k-1 and (every third) two-bit pattern of 128 bits (5 700 patterns); distances extended by 2^k-1, 2^k, 2^k+1 for k = 0..65.")
 	}
-	r.Rule("complete product: p in 0..128 x 11 base bit patterns (incl. IPv4-mapped and IPv4-compatible addresses) masked to /p x 13 block distances (0,1,2,2^8,2^32-1,2^32,2^63-1,2^63,2^64-1,2^64,2^64+1,last block,last+1) x in-block offset {0,1,size-1} x both argument orders for Offset; AddPrefixes+inverse for every distance < 2^64; every ordered pair of base patterns through one reused argument buffer (purity: same result as with fresh slices); two concurrent callers (every ordered pair of 5 representative calls, incl. the same call twice) under all schedules up to 2 preemptions at statement granularity; plus complete windows n=0..300 around the 2^64 and 2^128 carries for p in {0,1,2,62..66,126,127,128}. Reference: math/big. Class = function/p-range/outcome.")
+	r.Rule("complete product: p in 0..128 x 11 base bit patterns (incl. IPv4-mapped and IPv4-compatible addresses) masked to /p x 13 block distances (0,1,2,2^8,2^32-1,2^32,2^63-1,2^63,2^64-1,2^64,2^64+1,last block,last+1) x in-block offset {0,1,size-1} x both argument orders for Offset; AddPrefixes+inverse for every distance < 2^64; every ordered pair of base patterns through one reused argument buffer (purity: same result as with fresh slices); returned addresses held across 300 further calls and fed back as bases keep their value; two concurrent callers (every ordered pair of 5 representative calls, incl. the same call twice) under all schedules up to 2 preemptions at statement granularity; plus complete windows n=0..300 around the 2^64 and 2^128 carries for p in {0,1,2,62..66,126,127,128}. Reference: math/big. Class = function/p-range/outcome.")
 	r.Assume("values outside the listed bit patterns / distances are not explored; only carry/borrow/shift shapes are exhaustive")
 	seenCase := map[string]bool{}
 	for p := 0; p <= 128; p++ {
@@ -435,6 +486,7 @@ func run(r *ev.Run) {
 		}
 	}
 	aliasing(r)
+	heldResults(r)
 	concurrent(r)
 	// complete windows
 	for _, p := range []int{0, 1, 2, 62, 63, 64, 65, 66, 126, 127, 128} {
@@ -474,6 +526,8 @@ func replay(r *ev.Run, raw json.RawMessage) {
 	switch c.Fn {
 	case "aliasing":
 		aliasing(r)
+	case "held":
+		heldResults(r)
 	case "concurrent":
 		concurrent(r)
 	case "offset", "offset-rev":
